@@ -342,7 +342,7 @@ def compare_views(c, m: Model, probe_keys, probe_values, counter=None):
             ("ok", ks.index(k)) if has else ("exc", "ValueError"),
             _call(lambda: kv.index(k)))
         cnt = sum(1 for kk in ks if kk == k)
-        for inst in range(0, cnt + 1):
+        for inst in range(-cnt - 1, cnt + 1):
             if not has:
                 exp = ("exc", "KeyError")
             else:
